@@ -61,6 +61,13 @@ def conv(v, dtype):
             n = int(dtype.split("-")[0])
             if isinstance(v, (list, tuple)) and len(v) == n:
                 return True, [str(e) for e in v]
+            if isinstance(v, str):
+                # the documented text form of an n-tuple: "(a;b)", blanks around the elements are not part of them
+                t = v.strip()
+                if t.startswith("(") and t.endswith(")") and t.count("(") == 1 and t.count(")") == 1:
+                    elems = [e.strip() for e in t[1:-1].split(";")]
+                    if len(elems) == n and all(elems):
+                        return True, elems
             return False, None
         if dtype == "date":
             import datetime as _dt
@@ -385,8 +392,11 @@ def planted_cases():
                                                                  "values-unconvertible", "values-convertible",
                                                                  "values-late-unconvertible"]
         for attr in attrs:
-            for how in ("conflict", "near", "src-unset", "dest-unset", "equal", "dest-falsy", "src-falsy"):
+            for how in ("conflict", "near", "src-unset", "dest-unset", "equal", "dest-falsy", "src-falsy",
+                        "dest-unset-src-padded", "dest-unset-src-blank"):
                 if attr.startswith("values") and how != "conflict":
+                    continue
+                if how.startswith("dest-unset-src") and attr in ("dtype", "uncertainty"):
                     continue
                 if how.endswith("falsy") and attr != "uncertainty":
                     continue   # the only attribute with a meaningful falsy value (0)
@@ -423,8 +433,9 @@ def planted_cases():
                     dn[attr] = basev
                     sn[attr] = {"conflict": other, "near": "  some   TEXT " if attr != "unit" else other,
                                 "src-unset": None, "dest-unset": basev, "equal": basev,
-                                "dest-falsy": other, "src-falsy": 0}[how]
-                    if how == "dest-unset":
+                                "dest-falsy": other, "src-falsy": 0,
+                                "dest-unset-src-padded": "  Padded text\t\n", "dest-unset-src-blank": " \t "}[how]
+                    if how.startswith("dest-unset"):
                         dn[attr] = None
                     if how == "dest-falsy":
                         dn[attr] = 0.0
@@ -479,7 +490,9 @@ def planted_cases():
         # n-tuple Properties: same arity merges, another arity cannot
         for sdt, svals, tag in (("2-tuple", [["3", "4"], ["1", "2"]], "2-tuple<-2-tuple"), ("2-tuple", [["1", "2"]], "2-tuple<-equal"),
                                 ("3-tuple", [["3", "4", "5"]], "2-tuple<-3-tuple"), ("2-tuple", [["5", ""]], "2-tuple<-empty-element"),
-                                ("2-tuple", [["n", str(k)] for k in range(3)], "many-values<-2-tuple")):
+                                ("2-tuple", [["n", str(k)] for k in range(3)], "many-values<-2-tuple"),
+                                ("string", ["(3;4)", "(5; 6)"], "2-tuple<-text"), ("string", ["(3; 4)", ""], "2-tuple<-text-with-empty"),
+                                ("string", ["(3;4)", " "], "2-tuple<-text-with-blank")):
             for depth in (0, 1):
                 d, s = template(), template()
                 dn, sn = (d, s) if depth == 0 else (d["sections"][0], s["sections"][0])
